@@ -24,7 +24,7 @@ impl Check for GrowthCheck {
         "C18"
     }
     fn budget(&self, tier: &str) -> usize {
-        if tier == "thorough" { 1500 } else { 96 }
+        if tier == "thorough" { 8_000 } else { 400 }
     }
     fn gen_case(&self, seed: u64, _idx: usize, tier: &str, avoid: &[String]) -> Case {
         let mut rng = Rng::new(seed, "workload");
@@ -108,7 +108,7 @@ impl Check for GrowthCheck {
                     res.viols.push(Viol { class: "final_reopen_failed".into(), detail: "reopen at the end failed".into(), focus: None, schedule: None });
                     break;
                 }
-                let d = r.dump();
+                let d = r.dump_plain();
                 let diffs = discrepancies(&d, &r.model);
                 if !diffs.is_empty() {
                     let detail: Vec<String> = diffs.iter().take(5).map(|(c, t)| format!("[{c}] {t}")).collect();
